@@ -316,6 +316,47 @@ theorem finalize_loop_frame (cv : Conv V) (fetch : Str → Option (Doc V)) (ps :
     secAt (linkSteps cv fetch doc ps).1 q = secAt doc q :=
   linkSteps_frame cv fetch ps doc q hq h
 
+/-! ## 5. The text of an include: `URL#path` -/
+
+/-- "include (URL#path of another file)": the include text written from a URL (which holds no
+    `#`: it would start the fragment) and a position by names designates exactly that URL and
+    that position — whatever characters but `/` the names hold, a `#` included (`shank #1`):
+    the text is split at the FIRST `#` only. -/
+theorem include_text_designates (u : Str) (ns : List Str)
+    (hu : ∀ c ∈ u, (c == '#') = false) (hns : ∀ n ∈ ns, ∀ c ∈ n, (c == '/') = false) :
+    parseInclude (u ++ '#' :: absPath ns) = (u, some ns) := by
+  unfold parseInclude
+  rw [splitFirst_append_sep '#' u (absPath ns) hu]
+  simp only [Option.map_some]
+  rw [parsePath_absPath ns hns]
+
+/-- An include without `#` names the whole file (its first Section). -/
+theorem include_text_without_path (u : Str) (hu : ∀ c ∈ u, (c == '#') = false) :
+    parseInclude u = (u, none) := by
+  unfold parseInclude
+  rw [splitFirst_no_sep '#' u hu]
+  rfl
+
+/-- The include variant of `finalize_step_at_linker`: at a Section (any depth) whose include is
+    `URL#path`, the Section is replaced in place by the lenient merge of itself with the
+    Section at that position of the document served for the URL — also when a name on the way
+    holds a `#`. -/
+theorem finalize_step_at_include (cv : Conv V) (fetch : Str → Option (Doc V)) (doc : Doc V)
+    (p : List Str) (l t : Sec V) (u : Str) (ns : List Str) (term : Doc V)
+    (hl : secAt doc p = some l) (h1 : l.attrs.link = none)
+    (hk : l.attrs.incl = some (u ++ '#' :: absPath ns))
+    (hu : ∀ c ∈ u, (c == '#') = false) (hns : ∀ n ∈ ns, ∀ c ∈ n, (c == '/') = false)
+    (hf : fetch u = some term) (ht : secAt term ns = some t) :
+    let l1 := cleanSec cv (deref fetch doc) (height l + 1) l
+    let r := merge cv false { url := some u, path := ns } l1 t
+    (linkStep cv fetch doc p).2 = r.2 ∧ secAt (linkStep cv fetch doc p).1 p = some r.1 :=
+  linkStep_at_include cv fetch doc p l t _ u ns term hl h1 hk
+    (include_text_designates u ns hu hns) hf ht
+
+/-- `f#/p/s #1` is the Section `s #1` below `p` of the file `f`, not `/p/s ` and not `1`. -/
+example : parseInclude "f#/p/s #1".toList = ("f".toList, some ["p".toList, "s #1".toList]) := by
+  decide
+
 /-! ## Hypotheses are satisfiable -/
 
 def attrs0 (n t : Str) : SecAttrs :=
